@@ -537,6 +537,14 @@ def _assert_invariant(contract: Contract, instance: Any) -> None:
     else:
         check = contract.condition()
 
+    if inspect.iscoroutine(check):
+        raise ValueError(
+            "Unexpected coroutine resulting from the invariant condition {}; "
+            "the invariants can be checked only synchronously.".format(
+                contract.condition
+            )
+        )
+
     if not_check(check=check, contract=contract):
         raise _create_violation_error(
             contract=contract, resolved_kwargs={"self": instance}
